@@ -117,6 +117,22 @@ CLAIMED = {
         note=STATIC_NOTE + 'E-format widths assume |exponent| < 100; float()/int() of a single numeric field is taken '
              'to return the number printed there; file I/O is modelled as a list of lines.',
         ref='DESIGN.md section 4 C05'),
+    'C06': dict(
+        technique='abstract interpretation of the Chemkin writers over abstract strings with a symbolic mechanism (real '
+                  'ChemkinReaction objects, uninterpreted species getters); the abstract file text is taken apart again '
+                  'and every field compared with the model\'s own value',
+        text='Decides for mechanisms with gas, adsorbate, vacancy and bulk species on one and two catalyst sites, gas / '
+             'surface / adsorption reactions with and without transition states, three activation methods and two '
+             'site-density operations that gas.inp, surf.inp, EAs/EAg.inp, T_flow.inp and tube_mole.inp contain every '
+             'element, species, site, adsorbate, bulk species and reaction exactly once in the section where it belongs '
+             '(gas-only reactions in the gas files, all others in the surface files), that every declared count equals '
+             'the number of entries, and that every number written is the value the model gives under the same '
+             'conditions (A or sticking coefficient, beta, Ea by the selected method and unit, site density, occupancy, '
+             'density, EA/RT per run, T/P/Q/abyv, mole fractions with 0 for absent species). It does NOT decide the '
+             'read-back clause (read_reactions is regular-expression matching on arbitrary text).',
+        note=STATIC_NOTE + 'Species names are distinct symbolic texts; coefficient values symbolic; E-format widths '
+             'assume |exponent| < 100; column cosmetics are not decided.',
+        ref='DESIGN.md section 4 C06'),
     'C08': dict(
         technique='abstract interpretation of Reaction/ChemkinReaction/SurfaceReaction with uninterpreted species and '
                   'symbolic stoichiometry; normal-form identities; effect check on caller dictionaries',
